@@ -167,6 +167,12 @@ class Unit:
     def loop_spec(self, qualname, ordinal):
         return None
 
+    def override_method(self, ip, obj, attr):
+        return NotImplemented
+
+    def before_container_store(self, ip, obj, idx, v):
+        pass
+
     def abstract_stmt(self, ip, stmt, env, f):
         """a unit may replace a statement by a stated abstraction (returns True when it did); default: never"""
         return False
